@@ -527,7 +527,7 @@ static void doOp(const std::vector<std::string>& f)
       while (r)
       {
         try { r = r->execute(*c.ctx); }
-        catch (RuntimeError& re) { res = rerr(re); c.ctx->purgeWorkingMemory(); failed = true; break; }
+        catch (RuntimeError& re) { res = rerr(re); c.ctx->onRuntimeError(); failed = true; break; }   // as apps/cli_parser.cpp does
       }
       c.istmts.push_back(s);
       if (c.ctx->returnCondition()) { c.ctx->returnCondition(false); res = failed ? res : "ok"; res += " returned=" + retValue(*c.ctx); break; }
